@@ -185,3 +185,92 @@ def solve_wall_given_vp(eos: EOS, vw, vp, Tguess, Tlo, Thi):
             Tp = Tp_of(Tm)
             roots.append((Tp, Tm, vm_of(Tm)))
     return roots
+
+
+def solve_matching(eos: EOS, Tn, vw, vJ, ngrid=40, nT=81):
+    """Oracle's own search for an exact deflagration/hybrid matching at wall velocity vw < vJ:
+    for every v+ on a grid solve the two junction conditions for (T+,T-) (all roots), integrate the
+    compression wave and cross the shock; look for v+ where the temperature ahead equals Tn.
+    Returns dict(vp, vm, Tp, Tm, Tn_err) or None if no exact matching was found on the grid."""
+    if vw > vJ:
+        return None
+    xs = np.concatenate([np.geomspace(1e-3, 0.2, ngrid // 3, endpoint=False), np.linspace(0.2, 0.9995, ngrid - ngrid // 3)])
+    rows = []
+    for x in xs:
+        vp = vw * x
+        try:
+            roots = _junction_roots(eos, vw, vp, Tn, nT)
+        except Exception:
+            roots = []
+        out = []
+        for (Tp, Tm, vm) in roots:
+            if Tp is None or not (Tp > 0 and Tm > 0):
+                continue
+            try:
+                d = shock_Tn(eos, vw, vp, Tp, rtol=1e-9)["Tn"] - Tn
+            except Exception:
+                continue
+            out.append((Tp, Tm, vm, d))
+        rows.append((vp, out))
+    for (vpa, ra), (vpb, rb) in zip(rows[:-1], rows[1:]):
+        if not ra or len(ra) != len(rb):
+            continue
+        for (a, b) in zip(ra, rb):
+            if a[3] * b[3] <= 0:
+                Tm_guess = 0.5 * (a[1] + b[1])
+
+                def F(vp):
+                    rts = _junction_roots(eos, vw, vp, Tn, nT)
+                    rts = [q for q in rts if q[0] is not None]
+                    if not rts:
+                        return np.nan
+                    q = min(rts, key=lambda q: abs(q[1] - Tm_guess))
+                    return shock_Tn(eos, vw, vp, q[0], rtol=1e-10)["Tn"] - Tn
+
+                try:
+                    fa, fb = F(vpa), F(vpb)
+                    if not (np.isfinite(fa) and np.isfinite(fb)) or fa * fb > 0:
+                        continue
+                    vp = brentq(F, vpa, vpb, xtol=1e-13, rtol=1e-12)
+                except Exception:
+                    continue
+                rts = [q for q in _junction_roots(eos, vw, vp, Tn, nT) if q[0] is not None]
+                q = min(rts, key=lambda q: abs(q[1] - Tm_guess))
+                return dict(vp=float(vp), vm=float(q[2]), Tp=float(q[0]), Tm=float(q[1]), Tn_err=float(F(vp) / Tn))
+    return None
+
+
+def _junction_roots(eos, vw, vp, Tn, nT):
+    """all (Tp, Tm, vm) solving both junction conditions for given vw, vp; T in [0.3, 3] Tn"""
+    Tlo, Thi = 0.3 * Tn, 3.0 * Tn
+
+    def vm_of(Tm):
+        return min(vw, np.sqrt(max(eos.csq("b", Tm), 0.0)))
+
+    def Tp_of(Tm):
+        vm = vm_of(Tm)
+        target = eos.w("b", Tm) * gamma2(vm) * vm
+
+        def g(Tp):
+            return eos.w("s", Tp) * gamma2(vp) * vp - target
+
+        if not (g(Tlo * 0.2) < 0 < g(Thi * 5)):
+            return None
+        return brentq(g, Tlo * 0.2, Thi * 5, xtol=1e-14 * Tn, rtol=1e-15)
+
+    def h(Tm):
+        Tp = Tp_of(Tm)
+        if Tp is None:
+            return np.nan
+        vm = vm_of(Tm)
+        return ((eos.w("s", Tp) * gamma2(vp) * vp * vp + eos.p("s", Tp)) - (eos.w("b", Tm) * gamma2(vm) * vm * vm + eos.p("b", Tm))) / eos.w("s", Tn)
+
+    grid = np.geomspace(Tlo, Thi, nT)
+    vals = np.array([h(t) for t in grid])
+    roots = []
+    for i in range(len(grid) - 1):
+        a, b = vals[i], vals[i + 1]
+        if np.isfinite(a) and np.isfinite(b) and a * b < 0:
+            Tm = brentq(h, grid[i], grid[i + 1], xtol=1e-14 * Tn, rtol=1e-15)
+            roots.append((Tp_of(Tm), Tm, vm_of(Tm)))
+    return roots
